@@ -130,6 +130,18 @@ CHECKS = {
             'Proposals that would move an associated state to No/Pre are sent as Dis (BICEPS life cycle); the fixture '
             'offers a SetContextState operation for the patient context only, locations change through set_location.',
             'DESIGN.md section 2 C10'),
+    'C09': ('hypothesis generated invocation histories end to end (consumer clients, loop-back transport, SetService, SCO '
+            'registry with the worker loop run inline, handlers replaced by generated behaviours) judged against the '
+            'invocation-state grammar; complete enumeration of response/report interleavings for the consumer '
+            'OperationsManager',
+            'Provider side: transaction ids, the report state sequence per transaction (Wait Start F | F), the response '
+            'state and error information are read from the wire and compared with the behaviour the history prescribed, '
+            'including unknown operations; consumer side: the returned Future must be done, completed exactly once and carry '
+            'the final state and all parts delivered up to the final one - for every interleaving of the response with the '
+            'report parts of 1-2 concurrent transactions (enumerated; sampled for 3) and with duplicated final parts.',
+            'The SCO worker is not a thread (queued requests are processed when the history says drain); at most 10 queued '
+            'requests between drains.',
+            'DESIGN.md section 2 C09'),
 }
 
 NOT_YET = {}
